@@ -356,8 +356,8 @@ def run(tier, seed):
     shards.append(('rtu+kept', 0, (1,), 3, 7 if tier == 'quick' else 9))
     shards.append(('tcp+cancel', 0, (1,), 3, 6 if tier == 'quick' else 8))     # the application cancels one pending request
     shards.append(('rtu+cancel', 0, (1,), 3, 6 if tier == 'quick' else 8))
-    shards.append(('tcp+exc', 0, (1, 2), 3, 6 if tier == 'quick' else 9))        # the device answers with exception replies
-    shards.append(('rtu+exc', 0, (1,), 3, 6 if tier == 'quick' else 9))
+    shards.append(('tcp+exc', 0, (1, 2), 3, 6 if tier == 'quick' else 7))        # the device answers with exception replies
+    shards.append(('rtu+exc', 0, (1,), 3, 6 if tier == 'quick' else 7))
     acc = par.run_shards(shard, shards)
     he = None if acc.n.get('states', 0) > 200 else 'vacuous: too few states'
     return dict(acc=acc, level=LEVEL, harness_error=he,
